@@ -290,6 +290,11 @@ def run_check(pid, tier, seed, mod):
         if model_ok:
             mod.correspondence(ctx)
         mod.search(ctx, budget)
+        from . import impl as _impl
+        if _impl.CRASHED:
+            # a job that kills its worker process even when run alone: report it, it is never silently skipped
+            ctx.stats['worker_crashes'] = [list(c) for c in _impl.CRASHED[:5]]
+            ctx.broken.append({'obligation': 'harness', 'detail': 'a job kills its worker process when run alone: %s %s' % _impl.CRASHED[0]})
         if (ctx.broken or ctx.disagreements) and not unknown_failures(ctx, mod, known):
             # something no longer checks: look harder for a concrete failing input
             ctx.notes.append('extended search after broken obligation/correspondence')
